@@ -44,6 +44,8 @@ func (s *Slot) Check(ctx *base.EntryContext) *base.TokenResult {
 	rule, nodeBreaks := getRuleAndNodeBreakersOfResource(resource)
 	if rule == nil {
 		// no outlier rule for the resource (any more): nothing to filter
+		result.SetFilterNodes(nil)
+		result.SetHalfOpenNodes(nil)
 		return result
 	}
 	filterNodes, outlierNodes, halfOpenNodes := checkAllNodes(ctx, rule, nodeBreaks)
